@@ -52,4 +52,4 @@ def run(c):
             c.note("decgen C01 skipped: spec does not ignore verifPoint yet")
     except ImportError:
         c.note("decgen_tie not available")
-    run_common(c, "c01corr", 300, 6000)
+    run_common(c, "c01corr", 600, 6000)
